@@ -1,4 +1,7 @@
 -- property: C02, C01
+-- assumes: the numerator handed to polynomial.lagrange is the product of the identifier scalars (getScalarsAndNumerator: summarised, not proved)
+-- assumes: identifier scalars are pairwise distinct and non-zero (enforced by round.NewSession; non-zero proved, distinctness replayed)
+-- assumes: s_add / s_mul / s_inv in the contracts are the field operations of the scalar field (A-LIB-EC)
 -- Lagrange coefficients and reconstruction. The contract of polynomial.lagrange pins the VALUE the real code computes:
 --   l_j = numerator * ( x_j * prod_{i in D, i != j} (x_i - x_j) )^-1        (the product over the whole interpolation domain D)
 -- and every caller hands it numerator = prod_{i in D} x_i (getScalarsAndNumerator). The theorems below say that these are
